@@ -60,8 +60,133 @@ def check_graph(ctx):
     ctx.ob('graph-from-cliques', fi, loops[0] if loops else fi.node, ok, 'every pair of attributes of every clique is joined by an edge (no filter)')
     init = ctx.repo.nfunc(JT, 'JunctionTree.__init__')
     st = {U(s.targets[0]): U(s.value) for s in walk_shallow(init.node) if isinstance(s, ast.Assign) and len(s.targets) == 1}
-    ok = st.get('self.cliques') in ('[tuple(cl) for cl in cliques]', 'list(map(tuple, cliques))') and st.get('self.graph') == 'self._make_graph()'
-    ctx.ob('graph-from-cliques', init, init.node, ok, 'the tree is built from all the cliques it was given', construct='JunctionTree.__init__ stores')
+    ok, why = stored_cliques(init)
+    ok = ok and st.get('self.graph') == 'self._make_graph()'
+    ctx.ob('graph-from-cliques', init, init.node, ok, 'the tree is built from all the cliques it was given; a clique may only be left out when ONE '
+           'retained clique contains it (all its attribute pairs are then still edges): %s' % why, construct='JunctionTree.__init__ stores')
+
+
+def stored_cliques(init):
+    """what JunctionTree.__init__ stores as self.cliques, relative to the cliques it was given -> (ok, explanation)"""
+    param = init.params[2] if len(init.params) > 2 else 'cliques'
+    BASES = ('[tuple(cl) for cl in %s]' % param, 'list(map(tuple, %s))' % param, '[tuple(c) for c in %s]' % param)
+    body = init.body
+    assigns = {}
+    for s_ in body:
+        if isinstance(s_, ast.Assign) and len(s_.targets) == 1 and isinstance(s_.targets[0], ast.Name):
+            assigns.setdefault(s_.targets[0].id, []).append(s_)
+    stores = [s_ for s_ in body if isinstance(s_, ast.Assign) and any(U(t) == 'self.cliques' for t in s_.targets)]
+    if len(stores) != 1:
+        raise AnalysisError('JunctionTree.__init__: store to self.cliques not found')
+
+    def is_base(e, depth=0):
+        if U(e) in BASES:
+            return True
+        if isinstance(e, ast.Name) and depth < 4:
+            ds = assigns.get(e.id, [])
+            return len(ds) == 1 and is_base(ds[0].value, depth + 1)
+        return False
+
+    def subset_test(t, x):
+        """`set(x) REL set(o)` -> (REL, o expression)"""
+        if isinstance(t, ast.Compare) and len(t.ops) == 1 and isinstance(t.ops[0], (ast.LtE, ast.Lt)):
+            l, r = t.left, t.comparators[0]
+            if isinstance(l, ast.Call) and U(l.func) in ('set', 'frozenset') and len(l.args) == 1 and U(l.args[0]) == x:
+                if isinstance(r, ast.Call) and U(r.func) in ('set', 'frozenset') and len(r.args) == 1:
+                    return ('<' if isinstance(t.ops[0], ast.Lt) else '<='), r.args[0]
+                return ('<' if isinstance(t.ops[0], ast.Lt) else '<='), None
+        return None
+    v = stores[0].value
+    while isinstance(v, ast.Name) and len(assigns.get(v.id, [])) == 1 and not is_base(v):
+        nxt = assigns[v.id][0].value
+        if isinstance(nxt, (ast.List,)) and not nxt.elts:
+            break
+        v = nxt
+    if is_base(v):
+        return True, 'stores every given clique'
+    # ---- an accumulator filled by a loop over the given cliques ---------------------------------------------------------------
+    if isinstance(v, ast.Name):
+        acc = v.id
+        loops = [s_ for s_ in body if isinstance(s_, ast.For) and any(isinstance(c, ast.Call) and isinstance(c.func, ast.Attribute) and c.func.attr == 'append'
+                                                                       and U(c.func.value) == acc for c in ast.walk(s_))]
+        if len(loops) != 1 or not isinstance(loops[0].target, ast.Name):
+            raise AnalysisError('JunctionTree.__init__: how `%s` is filled is not recognised' % acc)
+        lp = loops[0]
+        x = lp.target.id
+        it = lp.iter
+        while isinstance(it, ast.Call) and U(it.func) in ('sorted', 'list', 'reversed', 'tuple') and it.args:
+            it = it.args[0]
+        if not is_base(it):
+            raise AnalysisError('JunctionTree.__init__: `%s` is not filled from the given cliques' % acc)
+        if len(lp.body) != 1 or not isinstance(lp.body[0], ast.If) or lp.body[0].orelse:
+            raise AnalysisError('JunctionTree.__init__: unrecognised filter loop')
+        g = lp.body[0]
+        appended = [c for c in ast.walk(g) if isinstance(c, ast.Call) and isinstance(c.func, ast.Attribute) and c.func.attr == 'append' and U(c.func.value) == acc]
+        if len(appended) != 1 or U(appended[0].args[0]) != x:
+            raise AnalysisError('JunctionTree.__init__: unrecognised filter loop')
+        t = g.test
+        if not (isinstance(t, ast.UnaryOp) and isinstance(t.op, ast.Not)):
+            raise AnalysisError('JunctionTree.__init__: unrecognised retention test `%s`' % U(t)[:60])
+        drop = t.operand
+        if isinstance(drop, ast.Call) and U(drop.func) == 'any' and len(drop.args) == 1 and isinstance(drop.args[0], (ast.GeneratorExp, ast.ListComp)) \
+                and len(drop.args[0].generators) == 1 and not drop.args[0].generators[0].ifs:
+            gen = drop.args[0].generators[0]
+            st_ = subset_test(drop.args[0].elt, x)
+            if st_ is not None and st_[1] is not None and U(st_[1]) == U(gen.target) and U(gen.iter) == acc:
+                return True, 'a clique is left out only when it is contained in one already retained (`%s`)' % U(drop)
+        st_ = subset_test(drop, x)
+        if st_ is not None and st_[1] is None:
+            return False, 'a clique is left out when its attributes are a subset of `%s` - a UNION of attributes of several retained cliques, not one clique: ' \
+                          'the pairs of its attributes need not be edges of any retained clique, so the edge (and every measurement on it) is lost' \
+                          % U(drop.comparators[0])
+        raise AnalysisError('JunctionTree.__init__: unrecognised drop condition `%s`' % U(drop)[:80])
+    # ---- a comprehension over the given cliques ---------------------------------------------------------------------------------
+    if isinstance(v, ast.ListComp) and len(v.generators) == 1:
+        gen = v.generators[0]
+        it = gen.iter
+        idx = None
+        if isinstance(it, ast.Call) and U(it.func) == 'enumerate' and len(it.args) == 1 and isinstance(gen.target, ast.Tuple) and len(gen.target.elts) == 2:
+            idx, x = U(gen.target.elts[0]), U(gen.target.elts[1])
+            it = it.args[0]
+        else:
+            x = U(gen.target)
+        if not is_base(it) or U(v.elt) != x or len(gen.ifs) != 1:
+            raise AnalysisError('JunctionTree.__init__: unrecognised clique filter `%s`' % U(v)[:80])
+        t = gen.ifs[0]
+        if not (isinstance(t, ast.UnaryOp) and isinstance(t.op, ast.Not)):
+            raise AnalysisError('JunctionTree.__init__: unrecognised retention test `%s`' % U(t)[:60])
+        drop = t.operand
+        # a local predicate: look at its body
+        if isinstance(drop, ast.Call) and isinstance(drop.func, ast.Name) and len(drop.args) == 1:
+            fdef = [n for n in init.node.body if isinstance(n, ast.FunctionDef) and n.name == drop.func.id]
+            if len(fdef) == 1 and len(fdef[0].body) == 1 and isinstance(fdef[0].body[0], ast.Return) and len(fdef[0].args.args) == 1:
+                p_ = fdef[0].args.args[0].arg
+                arg = U(drop.args[0])
+                drop = fdef[0].body[0].value
+                subject = p_
+                by_index = arg == idx
+            else:
+                raise AnalysisError('JunctionTree.__init__: unrecognised drop predicate `%s`' % U(drop)[:60])
+        else:
+            subject, by_index = x, False
+        if isinstance(drop, ast.Call) and U(drop.func) == 'any' and len(drop.args) == 1 and isinstance(drop.args[0], (ast.GeneratorExp, ast.ListComp)) \
+                and len(drop.args[0].generators) == 1:
+            g2 = drop.args[0].generators[0]
+            xs = '%s[%s]' % (U(it), subject) if by_index else subject
+            st_ = subset_test(drop.args[0].elt, xs)
+            it2 = g2.iter
+            if isinstance(it2, ast.Call) and U(it2.func) == 'enumerate' and len(it2.args) == 1:
+                it2 = it2.args[0]
+                other = U(g2.target.elts[1]) if isinstance(g2.target, ast.Tuple) and len(g2.target.elts) == 2 else None
+            else:
+                other = U(g2.target)
+            if st_ is not None and st_[1] is not None and U(st_[1]) == other and (is_base(it2) or U(it2) == U(it)):
+                if st_[0] == '<' and not g2.ifs:
+                    return True, 'a clique is left out only when it is a PROPER subset of another given clique (`%s`): the largest one of every chain stays' % U(drop)
+                return False, 'a clique is left out when it is contained in (`<=`) any OTHER given clique (`%s`): two equal cliques each see the other and ' \
+                              'both are dropped, and with them the edge and every measurement / zero set on it' % U(drop)
+        raise AnalysisError('JunctionTree.__init__: unrecognised drop condition `%s`' % U(drop)[:80])
+    raise AnalysisError('JunctionTree.__init__: self.cliques is `%s`, not a recognised selection of the given cliques' % U(v)[:80])
 
 
 def check_cliques(ctx):
